@@ -16,7 +16,7 @@ ASSUMPTIONS = ['expected outcome is computed from the program text and the reque
                'hooks do not raise (C03 owns that)']
 REQUIRED = ['terminated', 'final/finished', 'final/excepted', 'final/killed', 'kill_while_paused', 'kill_in_step', 'kill_from_listener',
             'unsuccessful_by_outputs', 'raising_listener_runs', 'listener_twice_runs']
-ALPHABET = [['pause', 'p'], ['play'], ['kill', 'k'], ['resume', ['v']], ['fail', 'f'], ['soon_raise', 'c']]
+ALPHABET = [['pause', 'p'], ['play'], ['kill', 'k'], ['resume', ['v']], ['fail', 'falsy-f'], ['soon_raise', 'c']]  # (fail: with an exception instance that is falsy)
 BOUNDS = {'quick': 'basic program family (+required-output variants), K<=2 exhaustive', 'thorough': 'K=3 exhaustive on 4 key programs, + 40 random programs, K=3 sampled'}
 
 
